@@ -100,6 +100,26 @@ func TestC14DelayFilter(t *testing.T) {
 			}()
 			f.Run(ctx)
 		}()
+		// in half of the cases the chunks are made and stamped now, as a router would stamp
+		// them on entry; they are handed to the filter later
+		stamped := rapid.Bool().Draw(t, "stamped")
+		pre := make([][]vnet.Chunk, ns)
+		if stamped {
+			c.Label("chunks/stamped-earlier")
+			for s := range plans {
+				for i, st := range plans[s] {
+					p := make([]byte, st.size)
+					binary.BigEndian.PutUint32(p, uint32(s))
+					binary.BigEndian.PutUint32(p[4:], uint32(i))
+					for j := 8; j < len(p); j++ {
+						p[j] = byte(s + i + j)
+					}
+					ch := vnet.VerifNewChunkUDP(srcAddr, dstAddr, p)
+					vnet.VerifStamp(ch)
+					pre[s] = append(pre[s], ch)
+				}
+			}
+		}
 		before := make([][]time.Time, ns)
 		var wg sync.WaitGroup
 		sendersDone := make(chan struct{})
@@ -116,6 +136,12 @@ func TestC14DelayFilter(t *testing.T) {
 						p[j] = byte(s + i + j)
 					}
 					ch := vnet.VerifNewChunkUDP(srcAddr, dstAddr, p)
+					if stamped {
+						// the chunk carries the stamp of a router it entered earlier (it was made and
+						// stamped when the case began); the filter's delay counts from the arrival
+						// at the filter all the same
+						ch = pre[s][i]
+					}
 					before[s][i] = time.Now()
 					vnet.VerifInbound(f, ch)
 					switch st.gap {
